@@ -143,7 +143,7 @@ impl Content for [f32; 2] {
 impl Content for [i16; 2] {
     const NAME: &'static str = "[i16;2]";
     fn mk(j: usize) -> [i16; 2] {
-        [(j as i16) * 1000 + 500, -(j as i16) * 900 - 7]
+        [((j % 30) as i16) * 1000 + 500 + (j / 30) as i16, -((j % 30) as i16) * 900 - 7 - (j / 30) as i16]
     }
     fn scaled_ok(src: Self, w: f64, got: Self, _b: usize) -> bool {
         (0..2).all(|c| (got[c] as f64 - (src[c] as f64 * w)).abs() <= 1.0 + 0.01)
@@ -333,6 +333,18 @@ fn main() {
             for l in 0..=lmax {
                 for b in 2..=l + 2 {
                     for h in 1..=l + 2 {
+                        cases.push((kind, fmt, l, b, h));
+                    }
+                }
+            }
+        }
+    }
+    // scale probes: long slices with structured (bin, hop)
+    for kind in ["hann", "rectangle"] {
+        for fmt in ["f64", "[i16;2]"] {
+            for l in [100usize, 257, 1000] {
+                for b in [2usize, 3, 64, l / 2, l - 1, l, l + 1] {
+                    for h in [1usize, 2, b.saturating_sub(1).max(1), b, b + 1, l / 3 + 1, l, l + 5] {
                         cases.push((kind, fmt, l, b, h));
                     }
                 }
